@@ -20,11 +20,12 @@ def fault_cfg(params):
 
 class FJob:
     """history h leading to state s, target call e with predicted successor s2"""
-    __slots__ = ("h", "s", "e", "s2", "same", "conc", "n", "ks")
+    __slots__ = ("h", "s", "e", "s2", "same", "conc", "n", "ks", "reuse")
 
     def __init__(self, h, s, e, s2, same, conc):
         self.h, self.s, self.e, self.s2, self.same, self.conc = h, s, e, s2, same, conc
         self.n, self.ks = 0, []
+        self.reuse = False
 
     def cifs_after(self):
         return sorted(set(self.s["cifs"]) | set(self.s2["cifs"]))
@@ -33,6 +34,8 @@ class FJob:
         """commands of one fault variant; returns (cmds, index of target, index range of after-projection, index of retry)"""
         c = [{"op": "reset"}] + [self.conc.cmd(x) for x in self.h]
         t = dict(self.conc.cmd(self.e), fail_at=k, fail_kinds=kinds)
+        if self.e["op"] == "get_value" and getattr(self, "reuse", False):
+            t["reuse"] = 1      # the caller hands in a value object of its own (a list with one member), to be overwritten
         c.append(t)
         it = len(c) - 1
         for cf in self.cifs_after():
@@ -237,6 +240,7 @@ def store_jobs(tier, rnd):
             cand = classes[shape]
             for h, s, e, s2, same in rnd.sample(cand, min(per_class, len(cand))):
                 jobs.append(FJob(h, s, e, s2, same, Conc(ci)))
+                jobs[-1].reuse = (e["op"] == "get_value" and len(jobs) % 2 == 0)
         covs.append({"config": name, "tlc": {k: st[k] for k in ("generated", "distinct", "wall_s")}, "states": nstates, "enabled_calls": ncalls, "call_classes": len(classes)})
         log("[C17 %s] states %d calls %d classes %d" % (name, nstates, ncalls, len(classes)))
     return jobs, covs
@@ -252,6 +256,7 @@ class VFJob:
     def __init__(self, h, s, e, s2):
         self.h, self.s, self.e, self.s2 = h, s, e, s2
         self.n, self.ks = 0, []
+        self.reuse = False
 
     def opname(self):
         return "%s.%s" % (self.e["op"], self.e.get("f", "")) if self.e.get("f") else self.e["op"]
@@ -400,6 +405,7 @@ class DocFJob:
     def __init__(self, name, text, mode, kinds=7):
         self.name, self.text, self.mode, self.kinds = name, text, mode, kinds      # kinds: 1 the library's own requests, 6 SQLite's and ICU's
         self.n, self.ks = 0, []
+        self.reuse = False
         self.base = None
 
     def opname(self):
